@@ -102,6 +102,8 @@ Faithful == Denote = pushed
 LenAgrees == Length = Len(pushed)
 \* no stored or computed element is the overflow marker: index(i) is total for i < len
 NoOverflowValue == \A i \in 1..Len(Denote) : IsWord(Denote[i])
+\* the positional formula used by the trace monitor is the denotation
+IndexAtAgrees == kind # "stride" => \A i \in 0..(Length - 1) : IC!ICIndexAt(ic, i) = IC!ICIndex(ic, i)
 \* Stride accepts exactly the documented pattern
 StrideExact == kind = "stride" => IC!IsStrideShape(pushed)
 StrideRejectsOnlyBreaks ==
